@@ -68,6 +68,7 @@ def gen_history(rng, t, enc, nops):
     zero = tuple([0] * NCOMP[t])
     a = []
     ops = []
+    ptr = 0           # the field's I/O pointer as gd_seek(3)/gd_putdata(3) define it (file coordinates)
     written = []      # for text: which samples are real (non-pad) values
     for _ in range(nops):
         r = rng.random()
@@ -97,7 +98,10 @@ def gen_history(rng, t, enc, nops):
                     p = max(0, L - rng.randint(1, 3))
                 else:
                     p = rng.randrange(L)
-            mixed = rng.random() < 0.2
+            here = False
+            if enc != "text" and a and rng.random() < 0.15:      # (a field without a data file has no I/O position yet)
+                p = ptr; here = True      # GD_HERE: the write lands at the I/O pointer
+            mixed = rng.random() < 0.2 and not here
             if enc == "text":
                 # fixed-width values so that overwrites keep the line width
                 tc = None
@@ -106,8 +110,9 @@ def gen_history(rng, t, enc, nops):
                 tc = rng.randrange(12)
                 vals = [rng.randint(0, 3) for _ in range(n)]
                 data = [tuple(small_to(t, v)) for v in vals]
-                ops.append(("P", p, data, tc, [x for v in vals for x in small_to(tc, v)]))
+                ops.append(("P", p, data, tc, [x for v in vals for x in small_to(tc, v)], False))
                 a = array_write(a, p, data, zero)
+                ptr = p + len(data)
                 continue
             else:
                 tc = None
@@ -131,21 +136,23 @@ def gen_history(rng, t, enc, nops):
                         v = gen_value(rng, t, "any")
                     cur = v
                     data.append(v)
-            ops.append(("P", p, data, None, [x for v in data for x in v]))
+            ops.append(("P", p, data, None, [x for v in data for x in v], here))
             oldlen = len(a)
             a = array_write(a, p, data, zero)
+            ptr = p + len(data)
             if enc == "text":
                 written += [False] * (len(a) - len(written))
                 for i in range(p, p + len(data)):
                     written[i] = True
         elif r < 0.8:
             ops.append(("G",))
+            ptr = len(a)          # the whole field was read: the pointer is at the end of the field
         elif r < 0.88:
-            ops.append(("F",))
+            ops.append(("F",)); ptr = 0      # the raw file is closed; it reopens at its beginning
         elif r < 0.93:
             ops.append(("S",))
         else:
-            ops.append(("R",))
+            ops.append(("R",)); ptr = 0
     ops.append(("G",))
     return ops
 
@@ -199,8 +206,11 @@ def main():
             ml = []
             for op in ops:
                 if op[0] == "P":
-                    _, p, data, tc, comps = op
-                    sc.append("put a %d %d %d %d %s" % (t if tc is None else tc, off, p, len(data), gdlib.hexs(comps)))
+                    _, p, data, tc, comps, here = op
+                    if here:
+                        sc.append("put a %d HERE 0 %d %s" % (t, len(data), gdlib.hexs(comps)))
+                    else:
+                        sc.append("put a %d %d %d %d %s" % (t if tc is None else tc, off, p, len(data), gdlib.hexs(comps)))
                     expect.append(("put", len(data)))
                     a = array_write(a, p, data, zero)
                     ml.append("P %d %s" % (p, gdlib.hexs([x for v in data for x in v])))
@@ -385,6 +395,44 @@ def main():
     if pay_ != want_:
         chk.violation(KEY_BZ2_EXTRA, "bzip2: field 1 3 1 0; put ffffffff at 1; put 80000000 at 9; close: a.bz2 holds %d bytes %s (expected %d bytes)" % (len(pay_), pay_.hex(), len(want_)),
                       {"kind": "impl-vs-spec", "script": r_, "final": pay_.hex()})
+
+    # ---------------------------------------------------------------- text encoding, byte level: the model (Text.v) against the
+    # library, inside the region the property claims (same-width overwrites, appends, gaps: file = rendering of the flat
+    # array, proved) and outside it (a wider or narrower value in the middle of the file clobbers its neighbour: the model
+    # predicts the bytes; not a finding, the property excludes it)
+    tcases = []
+    for ti in range(12 if not chk.thorough else 120):
+        n0 = rng.randint(1, 6)
+        old = [rng.choice([rng.randint(0, 9), rng.randint(10, 99), rng.randint(100, 999)]) for _ in range(n0)]
+        p_ = rng.randint(0, n0 + 2)
+        newv = [rng.choice([rng.randint(0, 9), rng.randint(10, 99), rng.randint(100, 99999)]) for _ in range(rng.randint(1, 3))]
+        tcases.append((old, p_, newv))
+    tlines = []
+    for ti, (old, p_, newv) in enumerate(tcases):
+        dt = os.path.join(root, "tb%d" % ti); os.mkdir(dt)
+        open(os.path.join(dt, "format"), "w").write("/ENCODING text\na RAW INT32 1\n")
+        rct, outt = vlib.sh([exe], inp=("open %s rw\nput a 4 0 0 %d %s\nput a 4 0 %d %d %s\nclose\n" % (
+            dt, len(old), gdlib.hexs(old), p_, len(newv), gdlib.hexs(newv))).encode(), timeout=60)
+        tlines.append("textput 30 %d %s %s" % (p_, ",".join(("%d" % v).encode().hex() for v in old), ",".join(("%d" % v).encode().hex() for v in newv)))
+    rct, mt = vlib.sh([drv], inp=("\n".join(tlines) + "\n").encode(), timeout=300)
+    MT = mt.strip().split("\n")
+    for ti, (old, p_, newv) in enumerate(tcases):
+        chk.cov["evaluations"] += 1
+        fb = open(os.path.join(root, "tb%d" % ti, "a.txt"), "rb").read()
+        same = all(len("%d" % a_) == len("%d" % b_) for a_, b_ in zip(old[p_:], newv))
+        if ti < len(MT) and MT[ti] != fb.hex():
+            chk.violation("model/text-bytes", "correspondence broken (text, byte level): old %s, put %s at %d: a.txt = %r, model %r" % (
+                old, newv, p_, fb[:80], bytes.fromhex(MT[ti])[:80] if MT[ti] != "?" else MT[ti]),
+                {"kind": "model-vs-impl", "correspondence": "C03 text byte model vs library", "old": old, "p": p_, "new": newv, "file": fb.hex(), "model": MT[ti]}, found=False)
+        elif same:
+            arr = list(old) + [0] * max(0, p_ - len(old))
+            arr[p_:p_ + len(newv)] = newv
+            want_b = "".join("%d\n" % v for v in arr).encode()
+            if fb != want_b:
+                chk.violation("history/text-bytes", "text: old %s, same-width put %s at %d: a.txt = %r, flat array renders as %r" % (old, newv, p_, fb[:80], want_b[:80]),
+                              {"kind": "impl-vs-spec", "old": old, "p": p_, "new": newv, "file": fb.hex()})
+            else:
+                nontriv.add(("textb", tuple(old), p_, tuple(newv)))
 
     # ---------------------------------------------------------------- GD_HERE sequential writes
     for enc in ENCS:
